@@ -14,7 +14,12 @@
 (* other way round) -; every run leaves its own output, so that the second    *)
 (* run is a run over the output of the same input.  What Observe accepts does *)
 (* not depend on dir: the prepared states have the successors of the fresh    *)
-(* one.  Every state before the first run is exported as a vector (prev =     *)
+(* one.  The arguments are part of the input as much as the schema file is:   *)
+(* where Prepare keeps the document, the schema file of the directory is the  *)
+(* very file the earlier run read - UNTOUCHED, older than the output that run *)
+(* has left -, and only the arguments differ; where it takes another document *)
+(* the schema file has been REPLACED since (SchemaFile).                      *)
+(* Every state before the first run is exported as a vector (prev =           *)
 (* dir): the harness puts the real output of prev into the directory, runs    *)
 (* the input there and demands exp, valid Go and the bytes the same input     *)
 (* gives in a fresh directory.                                                *)
@@ -149,6 +154,11 @@ PrevInputs ==
                        args |-> v.args]}
                 ELSE {})
 
+\* what became of the directory's schema file between the earlier run and the first run of v
+SchemaFile == IF dir = NoFile THEN "written"
+              ELSE IF dir.doc = v.doc THEN "untouched"   \* only the arguments differ
+              ELSE "replaced"
+
 \* ------------------------------------------------------------------ the machine
 Init ==
     \E sch \in Schemes : \E n \in 0..MaxObjs : \E counts \in [1..n -> 0..MaxProps] :
@@ -192,6 +202,7 @@ ModelOK ==
        \* the directory: fresh or holding another input's output before the first run, this
        \* input's own output after it
        /\ nobs = 0 => dir = NoFile \/ (dir # v /\ WF(dir.doc) /\ dir.args.form \in {"no_ignore", "with_ignore"})
+       /\ nobs = 0 => (SchemaFile = "untouched" <=> (dir # NoFile /\ dir.args # v.args /\ dir.doc = v.doc))
        /\ nobs > 0 => dir = v
        /\ (nobs = 0 /\ dir = NoFile) =>
             \* exactly one struct per non-ignored object, one field per property
@@ -236,5 +247,5 @@ Export ==
     nobs = 0 => Emit([doc |-> v.doc, args |-> v.args, shape |-> Shape(v.doc),
                       sat |-> Satisfiable(v.doc, v.args),
                       exp |-> [structs |-> Gen(v.doc, v.args)],
-                      prev |-> dir])
+                      prev |-> dir, schema |-> SchemaFile])
 =============================================================================
